@@ -79,7 +79,7 @@ func getCiphertext(encryptedKey *etree.Element) ([]byte, error) {
 
 func validateRSAKeyIfPresent(key interface{}, encryptedKey *etree.Element) (*rsa.PrivateKey, error) {
 	rsaKey, ok := key.(*rsa.PrivateKey)
-	if !ok {
+	if !ok || rsaKey == nil {
 		return nil, errors.New("expected key to be a *rsa.PrivateKey")
 	}
 
